@@ -1,7 +1,7 @@
 (* C16 -- Polynomials of the strategy's degree are reproduced exactly. *)
 From Coq Require Import List Bool Arith ZArith QArith Qcanon.
 From NI Require Import Num Base Lookup Linear Interp Spline Tri TriProofs SplineAlgebra LookupProofs LinearProofs LinearExact
-  SplineProofs Units SplineIndividual Repro ReproIndividual.
+  SplineProofs Units SplineIndividual Repro ReproIndividual Refuted.
 Import ListNotations.
 Local Open Scope Qc_scope.
 
@@ -107,6 +107,15 @@ Theorem C16_spline_reproduces_cubic_individual :
                 nth j v 0 = P p0 p1 p2 p3 x.
 Proof. exact spline_reproduces_cubic_individual. Qed.
 Print Assumptions C16_spline_reproduces_cubic_individual.
+
+(* the finding F1, kept as a machine-checked witness: with the right NotAKnot row as the PINNED code
+   assembled it (h_(n-2) on the diagonal), the default spline through samples of 1 + 2x - x^2/2 + x^3/4 on
+   the axis [0,1,3,4,8] does not return the cubic at x = 6 (it returned 34720/499 = 69.58 instead of 49);
+   repaired by the fix: commit d6ff5c0, after which C16_spline_reproduces_cubic holds *)
+Theorem C16_pinned_code_refuted :
+  exists x : Qc, qc_eqb (eval_with (srows_old f1_xs f1_data 0) f1_xs f1_data 3 x) (f1_P x) = false.
+Proof. exact F1_old_row_refuted. Qed.
+Print Assumptions C16_pinned_code_refuted.
 
 (* the end conditions a cubic must meet, spelled out (non-vacuity of the hypotheses above) *)
 Example C16_left_ok_cases : forall xs p1 p2 p3,
